@@ -150,7 +150,9 @@ func newSim(r *gen.Rand, ver gmsl.RoomVersion) (*sim, *simBranch) {
 	if t.PrivCreators && r.Chance(0.5) {
 		cc.Set("additional_creators", ref.A(ref.S(simUsers[1])))
 	}
-	if simCreateVersionOverride != "" {
+	if simCreateVersionOverride == "<empty>" {
+		cc.Set("room_version", ref.S("")) // present, but naming no version
+	} else if simCreateVersionOverride != "" {
 		cc.Set("room_version", ref.S(simCreateVersionOverride))
 	}
 	ps := protoSpec{Type: "m.room.create", StateKey: strp(""), Sender: creator, RoomID: fmt.Sprintf("!sim%d:origin.example", r.Intn(1<<30)), Content: gen.Plain().Bytes(cc), Depth: 1}
